@@ -107,8 +107,8 @@ def describe_mut(ev: Event | None, at: Event | None = None) -> str:
     callee entered from the constructor body, not by line)."""
     if ev is None:
         return "?"
-    top = ev.ctx[0].split(".")[0] if ev.ctx else f"a direct {ev.name}"
-    if at is not None and ev.ctx and at.ctx and ev.ctx[0] == at.ctx[0] and len(ev.ctx) > 0:
+    top = ev.xctx[0].split(".")[0] if ev.xctx else f"a direct {ev.name}"
+    if at is not None and ev.xctx and at.xctx and ev.xctx[0] == at.xctx[0]:
         same_site = getattr(ev, "_site0", None) == getattr(at, "_site0", None)
         if same_site:
             return f"its own {ev.name}"
@@ -116,9 +116,16 @@ def describe_mut(ev: Event | None, at: Event | None = None) -> str:
 
 
 def raise_key(ev: Event) -> str:
-    where = ev.ctx[-1] if ev.ctx else "constructor body"
+    """Identify a raise by exception class and the CLASS whose code raises it (stable under
+    extraction of helpers, renaming of locals, rewording of messages and guards)."""
+    origin = ev.origin
+    if origin is not None and origin.cls is not None:
+        where = origin.cls.name
+    elif origin is not None:
+        where = origin.name
+    else:
+        where = "?"
     txt = strip(ev.args.get("stmt", ""))
-    # drop the message text: it may be reworded without changing behaviour
     m = re.match(r"(raise \w+|assert)", txt)
     head = m.group(1) if m else txt[:40]
     return f"{head} in {where}"
@@ -131,6 +138,6 @@ def trail_text(trail: list, limit: int = 25) -> list[str]:
 def cond_outcome(seq: list[Event], param: str):
     """Outcome of the test of the bare flag `param` at depth 0 on this sequence, or None."""
     for e in seq:
-        if e.kind == "cond" and e.depth == 0 and e.name == param:
+        if e.kind == "cond" and e.xdepth == 0 and (e.name == param or e.args.get("term") == f"${param}"):
             return e.args["outcome"]
     return None
